@@ -165,7 +165,7 @@ def _prelude(spec, ctx):
 
 def run_once_serial(cfg, *, max_workers=None, prelude=False, around_run=None, warm_objects=False, displays=False):
     """Run one E2 configuration on the real SerialRunner under the spy."""
-    from .e2 import Obs
+    from .e2 import Obs, call_run
     spec = cfg.spec
     ctx = dict(cfg.context) if cfg.context is not None else None
     if prelude:
@@ -202,7 +202,7 @@ def run_once_serial(cfg, *, max_workers=None, prelude=False, around_run=None, wa
             [lab.is_cached(t) for t in built.canon]
         try:
             with quiet, (around_run(backend) if around_run is not None else contextlib.nullcontext()):
-                res = lab.run_tasks(req, **({'bust_cache': True} if cfg.bust_cache else {}), disable_progress=not displays, disable_top=not displays)
+                res = call_run(lab, req, cfg, disable_progress=not displays, disable_top=not displays)
             outcome = ('return', res)
         except Spin as e:
             outcome = ('spin', e)
